@@ -15,11 +15,9 @@ Section MassNd.
   Variable UI : idx -> list E -> N.           (* margin_tail_integral(indices, x) *)
 
   (* ---- the generated fast paths at this number type -------------------------------------- *)
-  Definition fast_1d : E -> E -> nat -> N := mass_1d (nsub N) U1.
-  Definition fast_2d : list E -> list E -> idx -> N :=
-    mass_2d (@xlt0 N) (@xge0 N) (Fin (n0 N)) (n0 N) (nadd N) (nsub N) U1 UI.
-  Definition fast_3d : list E -> list E -> idx -> N :=
-    mass_3d (@xlt0 N) (@xge0 N) (Fin (n0 N)) (n0 N) (nadd N) (nsub N) U1 UI.
+  Definition fast_1d : E -> E -> nat -> N := mass_1d N U1.
+  Definition fast_2d : list E -> list E -> idx -> N := mass_2d N U1 UI.
+  Definition fast_3d : list E -> list E -> idx -> N := mass_3d N U1 UI.
 
   (* ---- _mass_nd ------------------------------------------------------------------------------
        j = next((i for i, ai, bi in zip(indices, a, b) if ai < 0 <= bi), None)
